@@ -75,19 +75,21 @@ theorem udpB_length (m : Msg) :
   simp [udpB]; omega
 
 theorem udp_encode_small (m : Msg) (hmid : UdpCoder.validateMID m.mid = true) (htyp : UdpCoder.validateType m.typ = true)
-    (htk : m.token.length ≤ 8) (buf : Bytes) (h : buf.length < (udpB m).length) :
+    (hcode : m.code ≤ 255) (htk : m.token.length ≤ 8) (buf : Bytes) (h : buf.length < (udpB m).length) :
     UdpCoder.encode m buf = .ok ⟨(udpB m).length, true, buf⟩ := by
   unfold UdpCoder.encode
   rw [udp_size m htk, ← udpB_length]
-  simp [hmid, htyp, h]
+  have hc : ¬ (m.code > 255) := by omega
+  simp [hmid, htyp, h, hc]
 
 theorem udp_encode_big (m : Msg) (hmid : UdpCoder.validateMID m.mid = true) (htyp : UdpCoder.validateType m.typ = true)
-    (htk : m.token.length ≤ 8) (buf : Bytes) (h : (udpB m).length ≤ buf.length) :
+    (hcode : m.code ≤ 255) (htk : m.token.length ≤ 8) (buf : Bytes) (h : (udpB m).length ≤ buf.length) :
     UdpCoder.encode m buf = .ok ⟨(udpB m).length, false, udpB m ++ buf.drop (udpB m).length⟩ := by
   unfold UdpCoder.encode
   rw [udp_size m htk, ← udpB_length]
   have hnl : ¬ (buf.length < (udpB m).length) := by omega
-  simp only [hmid, htyp, Bool.not_true, Bool.false_eq_true, ↓reduceIte, hnl]
+  have hc : ¬ (m.code > 255) := by omega
+  simp only [hmid, htyp, Bool.not_true, Bool.false_eq_true, ↓reduceIte, hnl, hc]
   rw [udpB_length] at h
   -- split the buffer along the fields
   obtain ⟨p4, r4, rfl, hp4⟩ := split_at buf 4 (by omega)
@@ -164,10 +166,10 @@ theorem udpB_eq_spec (m : Msg) (hwf : WF .udp m = true) : udpB m = encUdp m := b
   rw [hfb, hmid]
 
 theorem udp_valid_of_WF (m : Msg) (hwf : WF .udp m = true) :
-    UdpCoder.validateMID m.mid = true ∧ UdpCoder.validateType m.typ = true ∧ m.token.length ≤ 8 := by
+    UdpCoder.validateMID m.mid = true ∧ UdpCoder.validateType m.typ = true ∧ m.token.length ≤ 8 ∧ m.code ≤ 255 := by
   simp only [WF, registryFor, Bool.and_eq_true, decide_eq_true_eq] at hwf
   obtain ⟨⟨⟨htk, hcode⟩, hopts⟩, ⟨⟨⟨ht0, ht3⟩, hm0⟩, hm1⟩⟩ := hwf
-  refine ⟨?_, ?_, htk⟩
+  refine ⟨?_, ?_, htk, by omega⟩
   · simp only [UdpCoder.validateMID, maxMID, Bool.and_eq_true, decide_eq_true_eq]
     exact ⟨hm0, decide_eq_true (by omega)⟩
   · simp only [UdpCoder.validateType, Bool.and_eq_true, decide_eq_true_eq]
@@ -183,13 +185,14 @@ def tcpHdrB (m : Msg) : Bytes :=
 
 def tcpB (m : Msg) : Bytes := tcpHdrB m ++ (optsB 0 m.options ++ encPayload m.payload)
 
-theorem tcp_encode_spec (m : Msg) (htk : m.token.length ≤ 8) (buf : Bytes) :
+theorem tcp_encode_spec (m : Msg) (htk : m.token.length ≤ 8) (hcode : m.code ≤ 255) (buf : Bytes) :
     TcpCoder.encode m buf =
       if buf.length < (tcpB m).length then .ok ⟨(tcpB m).length, true, buf⟩
       else .ok ⟨(tcpB m).length, false, tcpB m ++ buf.drop (tcpB m).length⟩ := by
   unfold TcpCoder.encode
   have htk' : ¬ (m.token.length > maxTokenSize) := by simp [maxTokenSize]; omega
-  simp only [htk', ↓reduceIte, bind, Except.bind, optionsMarshal_nil, Bool.not_true, Bool.false_eq_true]
+  have hc : ¬ (m.code > 255) := by omega
+  simp only [htk', hc, ↓reduceIte, bind, Except.bind, optionsMarshal_nil, Bool.not_true, Bool.false_eq_true]
   have hpl : (if m.payload.length > 0 then m.payload.length + 1 else m.payload.length) = (encPayload m.payload).length := by
     rw [encPayload_len]
   simp only [hpl]
